@@ -621,6 +621,49 @@ func (p *vnPuppet) Respond(stage1 *vnPacket) *vnTunnel {
 	return t
 }
 
+// RespondNoDeliver builds the genuine responder reply for a node's stage-1 packet but leaves delivery to the caller (reply in Stage2).
+func (p *vnPuppet) RespondNoDeliver(stage1 *vnPacket) *vnTunnel {
+	mach, err := handshake.NewMachine(p.CS.DefaultVersion(), p.CS.GetCredential, p.verifier(), p.allocIndex, false, header.HandshakeIXPSK0)
+	if err != nil {
+		panic(err)
+	}
+	resp, res, err := mach.ProcessPacket(nil, stage1.Data)
+	if err != nil || res == nil {
+		return nil
+	}
+	cs, err := newConnectionStateFromResult(res)
+	if err != nil {
+		panic(err)
+	}
+	node := stage1.Sender
+	t := &vnTunnel{P: p, Peer: node, CS: cs, Local: res.LocalIndex, Remote: res.RemoteIndex, Result: res, Stage0: stage1.Data, Stage2: resp}
+	p.Tunnels[node.Name] = t
+	return t
+}
+
+// vnTunnels renders only the tunnel-identity part of a node's hostmap.
+func vnTunnels(n *vnNode) string {
+	hm := n.F.hostMap
+	var lines []string
+	hm.RLock()
+	for a, h := range hm.Hosts {
+		lines = append(lines, fmt.Sprintf("primary[%s]=%d", a, h.localIndexId))
+	}
+	for a, l := range hm.moreHosts {
+		var ids []string
+		for _, h := range l {
+			ids = append(ids, fmt.Sprint(h.localIndexId))
+		}
+		lines = append(lines, fmt.Sprintf("list[%s]=%s", a, strings.Join(ids, ",")))
+	}
+	for i, h := range hm.Indexes {
+		lines = append(lines, fmt.Sprintf("idx[%d]=%v/%d", i, h.vpnAddrs, h.remoteIndexId))
+	}
+	hm.RUnlock()
+	sort.Strings(lines)
+	return strings.Join(lines, "\n")
+}
+
 // Seal builds an authenticated packet with the next counter.
 func (t *vnTunnel) Seal(typ header.MessageType, st header.MessageSubType, payload []byte) []byte {
 	c := t.CS.messageCounter.Add(1)
